@@ -1,0 +1,9 @@
+//go:build verif
+
+package group
+
+// Exports for the C09 (token scope, window and permissions) correspondence
+// driver.  Add-only.
+
+// VerifTokenValidGroupName is validGroupName (the oracle of the C09 model).
+func VerifTokenValidGroupName(s string) bool { return validGroupName(s) }
